@@ -17,6 +17,7 @@ CONSTANTS
   MaxBurst = 3
   CanonKinds = TRUE
   PoolAny = TRUE
+  MaxPause = 0
 PROPERTIES Terminates
 INVARIANTS NoViolation DoneMsgHasDoneFrags QueuedMsgsInUse LiveFragPeer
 VIEW view
